@@ -80,6 +80,7 @@ func genStress(r *Rng, tier string, p *Plan) {
 			p.Add(Op{K: "reload", At: now, S: "mindur", N: PickOf(r, int64(0), 300_000, 1_000_000, 2_500_000)})
 		}
 	}
+	p.N["cluster_name"] = int64(PickOf(r, 0, 0, 1))
 }
 
 type peerRep struct {
@@ -93,6 +94,7 @@ func runStress(t *testing.T, p *Plan) *Outcome {
 		clk := NewSimClock("n0")
 		drv := NewDriver(out, p.Seed, clk)
 		bus := NewSimBus(drv, out, p.Seed)
+		bus.Prefix = clusterPrefix(p)
 		cfg := &config.MockConfig{StressRelief: config.StressReliefConfig{
 			Mode: p.S["mode"], ActivationLevel: uint(p.N["act"]), DeactivationLevel: uint(p.N["deact"]),
 			SamplingRate: 10, MinimumActivationDuration: config.Duration(us(p.N["mindur_us"])),
@@ -118,6 +120,7 @@ func runStress(t *testing.T, p *Plan) *Outcome {
 		sr.UpdateFromConfig()
 		drv.Settle()
 		topic := ep.FormatTopic("refinery-stress-relief")
+		bus.Expect = map[string][]string{topic: {"n0"}}
 		const site = "collect.StressRelief"
 
 		// ---- reference model
